@@ -489,7 +489,10 @@ func c16CheckTable1(t c16Table, allShrink bool) (*kit.Fail, c16TTStats) {
 		// edges of a shrink column are pinned by aligned cells, it must not be
 		// wider than its widest single cell plus the column's margin.
 		// Exception: a span lying only on shrink columns still has to fit;
-		// its last column is then the one that may grow.
+		// which of its columns grows then is not specified (a benign change
+		// that grows the first instead of the last column fired here - false
+		// alarm corrected, DESIGN.md 9.5), so every column under such a span
+		// is exempt from the minimum-width check.
 		covered := make([]bool, ncols)
 		for _, row := range t.Rows {
 			for _, c := range row {
@@ -503,7 +506,9 @@ func c16CheckTable1(t c16Table, allShrink bool) (*kit.Fail, c16TTStats) {
 					}
 				}
 				if all {
-					covered[c.Col+c.Span-1] = true
+					for j := c.Col; j < c.Col+c.Span; j++ {
+						covered[j] = true
+					}
 				}
 			}
 		}
